@@ -9,6 +9,7 @@ package websocket
 
 import (
 	"io"
+	"sync"
 	"time"
 )
 
@@ -33,19 +34,216 @@ func ghost_rd_at(r io.Reader, i int) byte { panic("ghost") }
 //@ ensures maskBytes C14.mask.pos
 func ens_maskBytes(pos int, b []byte, ret0 int) bool { return ret0 == (pos+len(b))&3 }
 
-// WriteControl serialises against the write lock with a timer (channels, select): verified for C15 only as far as
-// stated there; here only its frame matters: it never touches the reader's state
-//@ trusted (*Conn).WriteControl
-//@ assigns (*Conn).WriteControl c.writeErr, c.writeErrMu
+// ---------- C15: the write lock (a 1-slot channel holding a token) and the close-sent latch ----------
+
+//@ lock-chan mu
+//@ shared conn.Write guarded_by mu C15.guarded
+
+func prim_chanheld(ch chan bool) bool { return false } // ghost lock-set membership; not observable at run time
+
+func ghost_wr_len(w io.Writer) int        { panic("ghost") }
+func ghost_old_wr_len(w io.Writer) int    { panic("ghost") }
+func ghost_wr_at(w io.Writer, i int) byte { panic("ghost") }
+
+// the writer side of a connection as newConnBRW builds it; the caller does not hold the write lock
+func spec_wfWriterLock(c *Conn) bool {
+	return c.conn != nil && c.mu != nil && !prim_chanheld(c.mu) && !prim_held(&c.writeErrMu)
+}
+
+func prim_held(mu *sync.Mutex) bool { return false }
+
+//@ requires (*Conn).writeFatal
+func req_writeFatal(c *Conn, err error) bool { return !prim_held(&c.writeErrMu) }
+
+// the latch is set at most once (first error wins) and the error mutex is released
+//@ ensures (*Conn).writeFatal C15.latch.monotone
+func ens_writeFatal(c *Conn, old_c Conn, err error) bool {
+	if old_c.writeErr != nil {
+		return c.writeErr == old_c.writeErr && !prim_held(&c.writeErrMu)
+	}
+	return !prim_held(&c.writeErrMu) && (err == nil || c.writeErr != nil)
+}
+
+// a failure is never turned into success
+//@ ensures (*Conn).writeFatal C15.fatal.nonnil
+func ens_writeFatal_nonnil(err error, ret0 error) bool { return err == nil || ret0 != nil }
+
+//@ assigns (*Conn).writeFatal c.writeErr, c.writeErrMu
+
+//@ requires (*Conn).write
+func req_write(c *Conn) bool { return spec_wfWriterLock(c) }
+
+// the lock is released on every path; nothing is written once the latch is set; a successful Close sets the latch
+// inside the critical section; the latch never goes back
+//@ ensures (*Conn).write C15.balanced
+func ens_write_balanced(c *Conn) bool { return !prim_chanheld(c.mu) && !prim_held(&c.writeErrMu) }
+
+//@ ensures (*Conn).write C15.latch.gate
+func ens_write_gate(c *Conn, old_c Conn, ret0 error) bool {
+	if old_c.writeErr == nil {
+		return true
+	}
+	return ret0 == old_c.writeErr && c.writeErr == old_c.writeErr && ghost_wr_len(c.conn) == ghost_old_wr_len(c.conn)
+}
+
+//@ ensures (*Conn).write C15.latch.set
+func ens_write_latch(c *Conn, frameType int, ret0 error) bool {
+	if ret0 == nil && frameType == CloseMessage {
+		return c.writeErr != nil
+	}
+	return true
+}
+
+//@ assigns (*Conn).write c.writeErr, c.writeErrMu, ghost.lock(c.mu), ghost.wr(c.conn), ghost.ioerr
+
+//@ requires (*Conn).WriteControl
+func req_WriteControl(c *Conn) bool { return spec_wfWriterLock(c) }
+
+//@ ensures (*Conn).WriteControl C15.balanced
+func ens_wc_balanced(c *Conn) bool { return !prim_chanheld(c.mu) && !prim_held(&c.writeErrMu) }
+
+//@ ensures (*Conn).WriteControl C15.latch.gate
+func ens_wc_gate(c *Conn, old_c Conn, ret0 error) bool {
+	if old_c.writeErr == nil {
+		return true
+	}
+	return ret0 != nil && c.writeErr == old_c.writeErr && ghost_wr_len(c.conn) == ghost_old_wr_len(c.conn)
+}
+
+//@ ensures (*Conn).WriteControl C15.latch.set
+func ens_wc_latch(c *Conn, messageType int, ret0 error) bool {
+	if ret0 == nil && messageType == CloseMessage {
+		return c.writeErr != nil
+	}
+	return true
+}
+
+// C13: what WriteControl puts on the wire is one whole control frame: FIN set, RSV clear, the opcode, mask bit iff
+// client, 7-bit length <= 125, then (client) the 4-byte key and the payload
+//@ ensures (*Conn).WriteControl C13.control.header
+func ens_wc_header(c *Conn, messageType int, data []byte, ret0 error) bool {
+	if ret0 != nil {
+		return true
+	}
+	w, o, n := c.conn, ghost_old_wr_len(c.conn), len(data)
+	hl := 2
+	if !c.isServer {
+		hl = 6
+	}
+	if !(messageType == CloseMessage || messageType == PingMessage || messageType == PongMessage) || n > 125 {
+		return false
+	}
+	if ghost_wr_len(w) != o+hl+n {
+		return false
+	}
+	b1 := byte(n)
+	if !c.isServer {
+		b1 |= 0x80
+	}
+	return ghost_wr_at(w, o) == 0x80|byte(messageType) && ghost_wr_at(w, o+1) == b1
+}
+
+//@ assigns (*Conn).WriteControl c.writeErr, c.writeErrMu, ghost.lock(c.mu), ghost.wr(c.conn), ghost.ioerr
+
+// ---------- C13: every data frame header flushFrame assembles is RFC 6455-valid ----------
+
+// a message writer positioned inside its connection's write buffer (NextWriter / WriteMessage build it this way)
+func spec_wfMessageWriter(w *messageWriter) bool {
+	c := w.c
+	if c == nil || !spec_wfWriterLock(c) || c.isWriting {
+		return false
+	}
+	ft := w.frameType
+	return w.pos >= maxFrameHeaderSize && w.pos <= len(c.writeBuf) && len(c.writeBuf) > maxFrameHeaderSize &&
+		(ft == continuationFrame || ft == TextMessage || ft == BinaryMessage || ft == CloseMessage || ft == PingMessage || ft == PongMessage)
+}
+
+//@ requires (*messageWriter).flushFrame
+func req_flushFrame(w *messageWriter, extra []byte) bool {
+	return spec_wfMessageWriter(w) && (len(extra) == 0 || w.c.isServer)
+}
+
+// RFC 6455 5.2: FIN, RSV1 (only when this frame starts a compressed message), RSV2/3 clear, opcode; mask bit iff
+// client; the shortest length form that fits, 64-bit lengths below 2^63; then (client) the 4-byte masking key
+func spec_wsHeaderOK(h []byte, fin, rsv1 bool, opcode int, masked bool, n int) bool {
+	if len(h) < 2 {
+		return false
+	}
+	if (h[0]&0x80 != 0) != fin || (h[0]&0x40 != 0) != rsv1 || h[0]&0x30 != 0 || int(h[0]&0x0f) != opcode || (h[1]&0x80 != 0) != masked {
+		return false
+	}
+	l7 := int(h[1] & 0x7f)
+	switch {
+	case n <= 125:
+		return l7 == n
+	case n <= 65535:
+		return l7 == 126 && len(h) >= 4 && int(h[2])<<8|int(h[3]) == n
+	}
+	if l7 != 127 || len(h) < 10 || h[2]&0x80 != 0 {
+		return false
+	}
+	var v uint64
+	for i := 0; i < 8; i++ {
+		v = v<<8 | uint64(h[2+i])
+	}
+	return v == uint64(n)
+}
+
+func spec_wsHeaderLen(masked bool, n int) int {
+	l := 2
+	if n > 125 {
+		l += 2
+	}
+	if n > 65535 {
+		l += 6
+	}
+	if masked {
+		l += 4
+	}
+	return l
+}
+
+//@ at-call (*messageWriter).flushFrame write C13.frame.header
+func at_flushFrame_write(w *messageWriter, old_w messageWriter, final bool, extra []byte, arg_frameType int, arg_bufs [][]byte) bool {
+	c := w.c
+	n := old_w.pos - maxFrameHeaderSize + len(extra)
+	if len(arg_bufs) != 2 || arg_frameType != old_w.frameType {
+		return false
+	}
+	h := arg_bufs[0]
+	masked := !c.isServer
+	if len(h) != spec_wsHeaderLen(masked, n)+old_w.pos-maxFrameHeaderSize || len(arg_bufs[1]) != len(extra) {
+		return false
+	}
+	// control frames are never fragmented and carry at most 125 bytes
+	if (old_w.frameType == CloseMessage || old_w.frameType == PingMessage || old_w.frameType == PongMessage) && (!final || n > 125) {
+		return false
+	}
+	return spec_wsHeaderOK(h, final, old_w.compress, old_w.frameType, masked, n)
+}
+
+// RSV1 is only ever set on the first frame of a message, and the frames after the first are continuation frames
+//@ ensures (*messageWriter).flushFrame C13.frame.sequencing
+func ens_flushFrame_seq(w *messageWriter, final bool, ret0 error) bool {
+	if ret0 != nil {
+		return true
+	}
+	return !w.compress && (final || w.frameType == continuationFrame && w.pos == maxFrameHeaderSize)
+}
+
+//@ ensures (*messageWriter).flushFrame C15.balanced
+func ens_flushFrame_balanced(w *messageWriter) bool { return !prim_chanheld(w.c.mu) }
+
+//@ assigns (*messageWriter).flushFrame w.*, w.c.writeBuf[*], w.c.isWriting, w.c.writer, w.c.writeErr, w.c.writeErrMu, ghost.lock(w.c.mu), ghost.wr(w.c.conn), ghost.ioerr
 
 // the reader side of a connection as newConnBRW builds it
 func spec_wfReader(c *Conn) bool {
-	return c.br != nil && c.readRemaining >= 0 && c.readLength >= 0 && c.handlePing != nil && c.handlePong != nil && c.handleClose != nil &&
+	return spec_wfWriterLock(c) && c.br != nil && c.readRemaining >= 0 && c.readLength >= 0 && c.handlePing != nil && c.handlePong != nil && c.handleClose != nil &&
 		(c.readLimit <= 0 || c.readLength <= c.readLimit) // maintained by NextReader (reset) and advanceFrame (this check)
 }
 
 //@ requires (*Conn).handleProtocolError
-func req_hpe(c *Conn) bool { return c != nil }
+func req_hpe(c *Conn) bool { return spec_wfWriterLock(c) }
 
 // every protocol error is answered with a Close frame carrying status 1002 and reported as an error
 //@ at-call (*Conn).handleProtocolError WriteControl C14.close-1002
@@ -56,7 +254,7 @@ func at_hpe(arg_messageType int, arg_data []byte) bool {
 //@ ensures (*Conn).handleProtocolError C14.protocol-error.returns-error
 func ens_hpe(ret0 error) bool { return ret0 != nil }
 
-//@ assigns (*Conn).handleProtocolError c.writeErr, c.writeErrMu
+//@ assigns (*Conn).handleProtocolError c.writeErr, c.writeErrMu, ghost.lock(c.mu), ghost.wr(c.conn), ghost.ioerr
 
 //@ ensures FormatCloseMessage C14.close-message
 func ens_FormatCloseMessage(closeCode int, text string, ret0 []byte) bool {
@@ -175,6 +373,6 @@ func ens_af_limit(c *Conn, old_c Conn, ret0 int, ret1 error) bool {
 	return c.readLength == old_c.readLength+c.readRemaining && c.readLength >= 0 && (c.readLimit <= 0 || c.readLength <= c.readLimit) && c.readLimit == old_c.readLimit
 }
 
-//@ assigns (*Conn).advanceFrame c.readRemaining, c.readFinal, c.readLength, c.readDecompress, c.readMaskPos, c.readMaskKey, c.writeErr, c.writeErrMu, ghost.rd(c.br), ghost.ioerr
+//@ assigns (*Conn).advanceFrame c.readRemaining, c.readFinal, c.readLength, c.readDecompress, c.readMaskPos, c.readMaskKey, c.writeErr, c.writeErrMu, ghost.rd(c.br), ghost.ioerr, ghost.lock(c.mu), ghost.wr(c.conn)
 
 var _ = time.Second
